@@ -33,6 +33,7 @@ func runC02(c *Ctx) {
 	c02Gate(c)
 	c02Assertions(c)
 	c02IndexMinusOne(c)
+	c02NonStrictBounds(c)
 	c02EmptyReducers(c)
 	c02OptionalPointers(c)
 	c02MustCompile(c)
@@ -473,6 +474,84 @@ func c02IndexMinusOne(c *Ctx) {
 		})
 	}
 	c.Ok("C02-R4", "index-result bounds enumerated", token.NoPos, itoa(n)+" uses")
+}
+
+// c02NonStrictBounds: an index X[E] whose only length guard admits E == len(X).
+func c02NonStrictBounds(c *Ctx) {
+	p := c.P
+	n := 0
+	for _, fi := range p.AllFuncs() {
+		if fi.Decl.Body == nil || p.IsTestFile(fi.Decl.Pos()) {
+			continue
+		}
+		info := fi.Pkg.TypesInfo
+		pm := parentMap(fi.Decl.Body)
+		ast.Inspect(fi.Decl.Body, func(nd ast.Node) bool {
+			ix, ok := nd.(*ast.IndexExpr)
+			if !ok {
+				return true
+			}
+			switch info.TypeOf(ix.X).Underlying().(type) {
+			case *types.Slice, *types.Array:
+			case *types.Basic:
+			default:
+				return true
+			}
+			if _, isConst := constInt(info, ix.Index); isConst {
+				return true
+			}
+			e, x := exprStr(ix.Index), exprStr(ix.X)
+			strict, loose := false, ""
+			atoms := lexicalGuards(pm, ix, fi.Decl.Body)
+			// short-circuit facts inside the same condition
+			for cur := pm[ix]; cur != nil; cur = pm[cur] {
+				if _, isStmt := cur.(ast.Stmt); isStmt {
+					break
+				}
+				if be, ok := cur.(*ast.BinaryExpr); ok && (be.Op == token.LAND || be.Op == token.LOR) {
+					atoms = append(atoms, WithinExprAtoms(be, ix)...)
+				}
+			}
+			for _, a := range atoms {
+				be, ok := ast.Unparen(a.E).(*ast.BinaryExpr)
+				if !ok || a.Tag != nil {
+					continue
+				}
+				l, r := exprStr(be.X), exprStr(be.Y)
+				op := be.Op
+				if r == e && l == "len("+x+")" {
+					// normalise to E <op> len(X)
+					l, r = r, l
+					switch op {
+					case token.LSS:
+						op = token.GTR
+					case token.GTR:
+						op = token.LSS
+					case token.LEQ:
+						op = token.GEQ
+					case token.GEQ:
+						op = token.LEQ
+					}
+				}
+				if l != e || r != "len("+x+")" {
+					continue
+				}
+				switch {
+				case (op == token.LSS && a.Truth) || (op == token.GEQ && !a.Truth):
+					strict = true
+				case (op == token.LEQ && a.Truth) || (op == token.GTR && !a.Truth):
+					loose = exprStr(be)
+				}
+			}
+			if loose == "" && !strict {
+				return true
+			}
+			n++
+			c.Check(strict, "C02-R4", fi.Name+":"+exprStr(ix)+" bound is strict", ix.Pos(), "guarded by "+e+" < len("+x+")", "index "+exprStr(ix)+" is guarded only by `"+loose+"`, which admits "+e+" == len("+x+"): index out of range on the boundary input")
+			return true
+		})
+	}
+	c.Ok("C02-R4", "length-guarded indexes enumerated", token.NoPos, itoa(n)+" index expression(s) with an explicit length guard")
 }
 
 func c02EmptyReducers(c *Ctx) {
